@@ -253,6 +253,13 @@ func (e *Enc) instr(cur *cursor, ins ssa.Instruction) {
 			e.safety(cur, "boxnil", fmt.Sprintf("(not (= %s Nil))", e.asTerm(e.value(fc, x.X))), x.Pos(), "a nil *"+pt.Elem().String()+" must not be stored in an interface")
 		}
 		e.publishCheck(cur, x.X, x.Pos(), "stored in an interface")
+		// a struct value with a type invariant keeps it inside an interface: proved where it is boxed,
+		// assumed where it is recovered by a type assertion
+		if isStruct(x.X.Type()) && e.m.structOf(x.X.Type()) != nil {
+			if inv := e.tinvTerm(st, e.asTerm(e.value(fc, x.X)), x.X.Type()); inv != "true" {
+				e.oblige(cur.guard, "tinv", fmt.Sprintf("box#%d", e.ordinal(cur.fc.tag+"tinvbox")), inv, []string{"C01"}, x.Pos(), "type invariant of the "+x.X.Type().String()+" value stored in an interface")
+			}
+		}
 		e.setVal(cur, x, e.box(e.value(fc, x.X), x.X.Type()))
 	case *ssa.ChangeInterface:
 		fc.vals[x] = term(e.asTerm(e.value(fc, x.X)), x.Type())
@@ -756,6 +763,11 @@ func (e *Enc) typeAssert(cur *cursor, x *ssa.TypeAssert) {
 	}
 	if pt, isP := x.AssertedType.Underlying().(*types.Pointer); isP && e.m.structOf(pt.Elem()) != nil && isStruct(pt.Elem()) {
 		e.assume(cur.guard, fmt.Sprintf("(=> %s (not (= %s Nil)))", ok, val))
+	}
+	if isStruct(x.AssertedType) && e.m.structOf(x.AssertedType) != nil {
+		if inv := e.tinvTerm(cur.st, val, x.AssertedType); inv != "true" {
+			e.assume(cur.guard, fmt.Sprintf("(=> %s %s)", ok, inv))
+		}
 	}
 	if x.CommaOk {
 		v := e.define(x.Name(), e.m.sortOf(x.AssertedType), fmt.Sprintf("(ite %s %s %s)", ok, val, e.m.zero(x.AssertedType)))
